@@ -148,6 +148,17 @@ def step (_ : Unit) (line : String) : Unit × String :=
       let m := "two=" ++ showProj two ++ " ext=" ++ showProj ext
       ((), m ++ " ||| " ++ verdictOf (filesOracle b o impl))
     | _, _ => ((), "bad-op")
+  | ["mchain", a, b, c] =>
+    match parseProj a, parseProj b, parseProj c with
+    | some a, some b, some c =>
+      let three := (mergeChain fields [a, b, c]).map fun (n, p) => (n, defaults p)
+      let ext := (loadChain fields [("@A", a), ("@B", b)] c).map fun (n, p) => (n, defaults p)
+      let m := "two=" ++ showProj three ++ " ext=" ++ showProj ext
+      let v := match parseTwoExt impl with
+        | none => "bad:C15:C15:load-failed"
+        | some (t, e) => verdictOf [if showProj (maskWd t) == showProj (maskWd e) then none else some "extends-chain-differs-from-naming-the-files"]
+      ((), m ++ " ||| " ++ v)
+    | _, _, _ => ((), "bad-op")
   | _ => ((), "bad-op")
 
 end PC.Drv.Merge
